@@ -65,6 +65,7 @@ fn main() {
     if let Some(c) = ctx.replay_case() {
         let case: Case = serde_json::from_value(c.clone()).unwrap_or_else(|e| mcx::machinery(&format!("bad case: {e}")));
         run_input(&ctx, &cli, &case.input, &[case.args.clone()]);
+        cli.cleanup();
         ctx.finish("replay of one case", false);
     }
     let ctx = &ctx;
@@ -99,6 +100,7 @@ fn main() {
     ctx.assume("a check whose warning concerns the whole binary (CWE215, CWE332) defines no address; every other check must report at least one");
     ctx.assume("a warning names a known check with its version if some known check M reports under that CWE identifier and the version is M's; documented identifiers: CWE119 -> CWE119/CWE125/CWE787, CWE416 -> CWE416/CWE415, Memory -> CWE476, every other check its own name");
     ctx.assume("the table of known checks and versions is the library's get_modules(); the canonical order is the derived Ord of CweWarning re-implemented on the parsed JSON");
+    cli.cleanup();
     ctx.finish(
         "one case = (P-Code project, ELF image, CLI selection); every case is run through the real cwe_checker binary; oracle: exit status 0, stderr empty apart from hook lines, stdout a JSON array of well-formed warnings with known name, that check's version, addresses where defined, sorted in canonical order; non-trivial = the run reported at least one warning",
         true,
